@@ -387,3 +387,114 @@ func c17fold(c *Ctx) {
 	})
 	c.R.Extra["C17.R12_byte_rows"] = rows
 }
+
+// c17mapEntries (R13, round 5): every entry of a document map arrives in the target map. In generateMap each iteration
+// over the source's keys either stores an entry for that key (SetMapIndex) or ends the function with an error; an
+// iteration that just moves on drops the entry — encoding/json keeps a null entry as a zero value (seed r5-C17-3).
+func c17mapEntries(c *Ctx) {
+	rule := "C17.R13"
+	f := c.fn(rule, "core/mapping", "(*Unmarshaler).generateMap")
+	if f == nil {
+		return
+	}
+	ps := c.paths(rule, f, px.Config{MaxVisits: 3, MaxPaths: 200000})
+	mapIndex := calleeIs("reflect.(Value).MapIndex")
+	rawSet := calleeIs("reflect.(Value).SetMapIndex")
+	// helpers of the package that store a map entry themselves count as stores
+	setters := map[*ssa.Function]bool{}
+	for _, g := range c.P.AllFuncs("core/mapping") {
+		if g != f && callsInBody(g, func(cc *ssa.CallCommon) bool { return calleeName(cc) == "(reflect.Value).SetMapIndex" }) {
+			setters[g] = true
+		}
+	}
+	setIndex := func(e *px.Event) bool {
+		return rawSet(e) || (e.Kind == px.EvCall && e.Call != nil && e.Call.Static != nil && setters[e.Call.Static])
+	}
+	iters := 0
+	held := c.forall(rule, "core/mapping.(*Unmarshaler).generateMap", "each iteration over the document map's keys stores an entry for its key (SetMapIndex) unless the function returns an error: no entry is silently dropped", f, ps, func(p *px.Path) (bool, string) {
+		var idx []int
+		for i := range p.Events {
+			if mapIndex(&p.Events[i]) && p.Events[i].Depth == 0 {
+				idx = append(idx, i)
+			}
+		}
+		for k := 0; k+1 < len(idx); k++ {
+			iters++
+			stored := false
+			for j := idx[k]; j < idx[k+1]; j++ {
+				if setIndex(&p.Events[j]) {
+					stored = true
+				}
+			}
+			if !stored {
+				return false, "an iteration over the source map's keys moves on to the next key without storing an entry for this one (a null entry is skipped): the target map has fewer entries than the document"
+			}
+		}
+		return true, ""
+	})
+	if held && iters == 0 {
+		c.R.Undecided(rule, "core/mapping.(*Unmarshaler).generateMap#loop", "the loop over the source keys is recognised", "no path with two successive MapIndex calls")
+	}
+}
+
+// c17mapFieldInfo (R14, round 5): the names of a map's entries are data, not field names. conf lower-cases document
+// keys guided by a tree of field infos; for a map-typed field the tree node must say "any entry name, then the
+// element type" (mapField) instead of exposing the element struct's field names as children — otherwise an entry
+// whose name equals a field name of the element type ("host", "Port") is taken for that field, and mixed-case keys
+// below it are no longer matched (seed r5-C17-2). In buildNamedFieldInfo the path that found the field's kind to be
+// reflect.Map hands addOrMergeFields a fresh info whose mapField is the element type's info.
+func c17mapFieldInfo(c *Ctx) {
+	rule := "C17.R14"
+	f := c.fn(rule, confPkg, "buildNamedFieldInfo")
+	if f == nil {
+		return
+	}
+	const reflectMap = 21 // reflect.Map (part of reflect's API)
+	ps := c.paths(rule, f, px.Config{})
+	merge := calleeIs(confPkg + ".addOrMergeFields")
+	build := calleeIs(confPkg + ".buildFieldsInfo")
+	mapPaths := 0
+	held := c.forall(rule, confPkg+".buildNamedFieldInfo", "for a field of kind map the info merged into the tree is a fresh node whose mapField is the element type's info (entry names are not matched against the element's field names)", f, ps, func(p *px.Path) (bool, string) {
+		isMap := false
+		for _, b := range p.All(px.KindIs(px.EvBranch)) {
+			cnd := b.Cond.Strip(true)
+			if cnd.Kind != px.KBinOp || cnd.Op != token.EQL || !b.Taken {
+				continue
+			}
+			if k, ok := constInt(p, cnd.Y); ok && k == reflectMap {
+				if x := cnd.X.Strip(true); x.Kind == px.KCall && x.Call != nil && x.Call.Obj() != nil && x.Call.Obj().Name() == "Kind" {
+					isMap = true
+				}
+			}
+		}
+		if !isMap {
+			return true, ""
+		}
+		m := p.First(merge)
+		if m == nil {
+			return true, "" // an error path
+		}
+		mapPaths++
+		arg := m.Call.Args[2].Strip(false)
+		if arg.Kind != px.KAlloc {
+			return false, "the info merged for a map field is not a fresh node (the element type's own info is used: its field names would be matched against entry names)"
+		}
+		ok := false
+		for _, st := range p.All(px.KindIs(px.EvStore)) {
+			if px.FieldAddrIs(st.Addr, "mapField", func(b *px.Sym) bool { return b == arg }) {
+				for _, bf := range p.All(build) {
+					if findExtract(p, bf.Res, 0) != nil && st.Val.Strip(false) == findExtract(p, bf.Res, 0).Strip(false) {
+						ok = true
+					}
+				}
+			}
+		}
+		if !ok {
+			return false, "the fresh node's mapField is not the info built for the element type"
+		}
+		return true, ""
+	})
+	if held && mapPaths == 0 {
+		c.R.Fail(rule, confPkg+".buildNamedFieldInfo#map-kind", "a field of kind map is distinguished from struct/slice fields when the key tree is built", posOf(c, f), "no path of buildNamedFieldInfo establishes kind == reflect.Map before merging: map fields get the element struct's field names as children, so an entry named like one of those fields (\"host\", \"Port\") is treated as that field and the keys below it are not folded", nil)
+	}
+}
